@@ -321,7 +321,9 @@ def iterate(ctx, p, K):
         want_r = sorted([unm, str(norm_cond(CMP(Poly.fn("abs", L - Hh), ">", S_("relative_accuracy_threshold"))))])
         want_r2 = sorted([unm, str(norm_cond(CMP(Poly.fn("abs", Hh - L), ">", S_("relative_accuracy_threshold"))))])
         kind = "fractional" if "fractional_accuracy_threshold" in repr(opt) or "fractional" in " ".join(got) else "absolute"
-        good = full and len(opt) == 1 and (got == want_f if kind == "fractional" else got in (want_r, want_r2))
+        # the test is made exactly when its threshold is set: the guard is the positive `threshold is not None` of the threshold this store compares with
+        want_opt = f"({'fractional_accuracy_threshold' if kind == 'fractional' else 'relative_accuracy_threshold'} is not Const(None))"
+        good = full and len(opt) == 1 and repr(opt[0]) == want_opt and (got == want_f if kind == "fractional" else got in (want_r, want_r2))
         ctx.ob(rule, f"{f.key}:{kind}", good, where=f, node=s.node, construct="; ".join(got)[:300],
                message=("ratio = lower/higher inverted when > 1, 0 unless lower > 0, flagged when < threshold, unmasked pixels only" if kind == "fractional"
                         else "|lower - higher| flagged when > tolerance, unmasked pixels only"))
@@ -444,6 +446,23 @@ def level_advance(ctx, p):
             and norm_text(bk.get("mask")) == "self.mask"
     ctx.ob(rule, m.key + ":result", okr, where=m, node=rets[0] if rets else m.node, construct=detr,
            message="the result must be the array accumulated over the levels PLUS the last level's evaluation of the still-unresolved pixels, on the sampler's mask")
+    # exits inside the level loop: the accumulated array may be returned early only once nothing is left unresolved (this level's threshold mask is all true), or from
+    # the ZeroDivisionError handler of the level; any other test hands back zeros for the pixels that are still unresolved
+    inloop = [r for st in loop.body for r in ast.walk(st) if isinstance(r, ast.Return)]
+    handlers = [h for st in loop.body for h in ast.walk(st) if isinstance(h, ast.ExceptHandler)]
+    okx, detx = True, []
+    for r in inloop:
+        if any(r is sub for h in handlers for sub in ast.walk(h)):
+            continue
+        pcs = [c_ for c_ in wire.path_conds(m, r, inline=True)]
+        own = [(norm_text(i_.test), t_) for i_, t_ in wire.enclosing_branches(m, r) if any(i_ is sub for st in loop.body for sub in ast.walk(st))]
+        detx.append(f"return {norm_text(r.value)[:50]} under {own}")
+        acc_ = k2.get("iterated_array")
+        val_ok = isinstance(r.value, ast.Call) and norm_text(wire.strip_np_array(wire.kw(r.value, (p.resolve_call(r.value, m) or [None])[0]).get("values"))) == acc_
+        cond_ok = any(wire.cond_holds(pcs, f"{higher_m}.is_all_true") or wire.cond_holds(wire.path_conds(m, r), f"{higher_m}.is_all_true") for _ in (0,)) and len(own) == 1
+        okx = okx and val_ok and cond_ok
+    ctx.ob(rule, m.key + ":loop-exit", okx, where=m, node=inloop[0] if inloop else loop, construct="; ".join(detx)[:240] or "no exit inside the loop",
+           message="inside the level loop the accumulated array may be returned only when this level's threshold mask is all true (nothing left to refine)")
     # the only exit before the schedule: an evaluation that is zero everywhere needs no refinement (and would divide by zero in the threshold test)
     early = [r for r in wire.returns_of(m) if r.lineno < loop.lineno]
     oke = True
@@ -475,6 +494,8 @@ CONTROLS = [
     Control("binning uses sub size of next pixel", _O, in_func("binned_array_2d_from", "                index += 1\n", "", count=1) if False else in_func("binned_array_2d_from", "sub = sub_size[index]", "sub = sub_size[index - 1]"), None),
     Control("slim index table increments slim inside sub loop", _O, in_func("slim_index_for_sub_slim_index_via_mask_2d_from", "                        sub_slim_index += 1\n\n                slim_index += 1", "                        sub_slim_index += 1\n                        slim_index += 1"), "C09.traversal"),
     Control("over_sampled_grid drops origin", _U, in_func("OverSamplerUniform.over_sampled_grid", "            origin=self.mask.origin,\n", ""), "C09.wiring"),
+    Control("level loop left as soon as something is still unresolved", _I, in_func("OverSamplerIterate.array_via_func_from", "if threshold_mask_higher_sub.is_all_true:", "if not threshold_mask_higher_sub.is_all_true:"), "C09.iterate"),
+    Control("fractional test made only when no threshold is set", _I, in_func("threshold_mask_via_arrays_jit_from", "if fractional_accuracy_threshold is not None:", "if fractional_accuracy_threshold is None:"), "C09.iterate"),
     Control("fractional test uses >", _I, in_func("threshold_mask_via_arrays_jit_from", "if fractional_accuracy < fractional_accuracy_threshold:", "if fractional_accuracy > fractional_accuracy_threshold:"), "C09.iterate"),
     Control("ratio not inverted", _I, in_func("threshold_mask_via_arrays_jit_from", "                        if fractional_accuracy > 1.0:\n                            fractional_accuracy = 1.0 / fractional_accuracy\n", ""), "C09.iterate"),
     Control("previous level never advanced (seed C09/1)", _I, in_func("OverSamplerIterate.array_via_func_from", "            array_sub_1 = array_higher_sub\n", "            array_lower_sub = array_higher_sub\n"), "C09.iterate"),
